@@ -5,6 +5,7 @@ accumulates while strax's own bytecode runs *is* the encoding (regenerated from
 /repo's current source on every run by construction).
 """
 import itertools
+import os
 import time
 import numbers
 
@@ -53,6 +54,12 @@ class Stats:
         self.max_depth = 0
         self.unknown = 0
         self.nontrivial = 0  # completed paths on which at least one obligation was discharged
+        # independent re-check of sampled 'unsat' verdicts by other solver builds (see xcheck_flush)
+        self.xcheck_queries = 0
+        self.xcheck_agree_z3_4_8 = 0
+        self.xcheck_agree_cvc5 = 0
+        self.xcheck_unknown = 0
+        self.xcheck_disagree = 0
 
     def as_dict(self):
         return dict(self.__dict__)
@@ -878,11 +885,88 @@ def prove(c, label, extra=None):
     r = p.check(neg)
     if r == z3.unsat:
         p.stats.unsat += 1
+        _xcheck_sample(p, neg, label)
         return
     if r == z3.unknown:
         raise Unsupported(f"solver unknown on obligation {label}")
     m = p.model(neg)
     raise ProofFailed(label, m, extra)
+
+
+# ------------------------------------------------------------------------------- second-solver cross-check
+def _xcheck_every():
+    """0 = off; n = every n-th discharged obligation (set by the runner per tier, read lazily: workers are forked)"""
+    return int(os.environ.get("VERIF_XCHECK_EVERY", "0") or 0)
+
+
+_XQ = []          # pending (label, smt2 text)
+_XN = [0]
+XCHECK_DISAGREEMENTS = []
+
+
+def _xcheck_sample(p, neg, label):
+    """Keep the SMT-LIB2 text of every n-th obligation that z3 (the wheel's build) answered 'unsat' (plus the first
+    few of each run), to be re-decided by the system z3 4.8.12 and cvc5 1.0 binaries."""
+    every = _xcheck_every()
+    if not every:
+        return
+    _XN[0] += 1
+    if _XN[0] > 5 and _XN[0] % every:
+        return
+    s2 = z3.Solver()
+    s2.add(*p.pc)
+    s2.add(neg)
+    _XQ.append((str(label)[:120], s2.to_smt2()))
+
+
+def _run_solver(cmd, text, suffix):
+    import subprocess
+    import tempfile
+
+    with tempfile.NamedTemporaryFile("w", suffix=suffix, delete=False) as f:
+        f.write(text)
+        name = f.name
+    try:
+        out = subprocess.run(cmd + [name], capture_output=True, text=True, timeout=600).stdout
+    except Exception as e:  # noqa
+        out = f"(error {e})"
+    finally:
+        os.unlink(name)
+    return out
+
+
+def xcheck_flush(stats):
+    """Re-decide the sampled queries: one process per solver for the whole batch (push/pop around each query).  An
+    answer other than 'unsat' from a solver that does answer is a disagreement (reported as inconclusive by the
+    runner); 'unknown', timeouts and any '(error' line count as unknown, never as agreement."""
+    global _XQ
+    qs, _XQ = _XQ, []
+    if not qs:
+        return
+    body = []
+    for _, t in qs:
+        t = "\n".join(l for l in t.splitlines() if not l.startswith("(set-info") and not l.startswith("(set-logic"))
+        body.append("(push 1)\n" + t + "\n(pop 1)\n")
+    text = "".join(body)
+    outs = {
+        "z3_4_8": _run_solver(["/usr/bin/z3", "-T:300"], text, ".smt2"),
+        "cvc5": _run_solver(["/usr/bin/cvc5", "--incremental", "--tlimit-per=20000"], "(set-logic ALL)\n" + text, ".smt2"),
+    }
+    stats.xcheck_queries += len(qs)
+    for name, out in outs.items():
+        ans = [l.strip() for l in out.splitlines() if l.strip() in ("sat", "unsat", "unknown") or l.startswith("(error")]
+        if len(ans) != len(qs) or any(a.startswith("(error") for a in ans):
+            # cannot align answers with queries: everything from this solver is 'unknown'
+            stats.xcheck_unknown += len(qs)
+            continue
+        for (label, t), a in zip(qs, ans):
+            if a == "unsat":
+                setattr(stats, f"xcheck_agree_{name}", getattr(stats, f"xcheck_agree_{name}") + 1)
+            elif a == "sat":
+                stats.xcheck_disagree += 1
+                XCHECK_DISAGREEMENTS.append(f"{name} answers sat where z3-{z3.get_version_string()} answered unsat: {label}")
+            else:
+                stats.xcheck_unknown += 1
 
 
 def note(x):
@@ -1008,6 +1092,11 @@ def explore(fn, max_paths=200000, timeout_ms=60000, stop_on_cex=True, want_witne
         finally:
             _CUR = None
         work.extend(p.pending)
+    xcheck_flush(res.stats)
+    if XCHECK_DISAGREEMENTS:
+        res.status = "inconclusive" if res.status == "ok" else res.status
+        res.reason = "solver disagreement: " + "; ".join(XCHECK_DISAGREEMENTS[:3])
+        del XCHECK_DISAGREEMENTS[:]
     return res
 
 
